@@ -2,7 +2,11 @@
 CFG = {
     "count": {"quick": 64000, "thorough": 3000000},
     "lean_files": ["GeoModel/RelateSpec.lean", "GeoModel/Valid.lean", "GeoModel/Locate.lean", "GeoModel/Segment.lean",
-                   "GeoModel/LineIntersection.lean", "GeoModel/Ops/C01.lean"],
+                   "GeoModel/LineIntersection.lean", "GeoModel/Ops/C01.lean",
+                   "GeoProofs/Lemmas/RelateSpecLemmas.lean", "GeoProofs/Lemmas/RelateSpecLocate.lean",
+                   "GeoProofs/Lemmas/RelateSpecBBox.lean", "GeoProofs/Lemmas/RelateSpecSwap.lean",
+                   "GeoProofs/Lemmas/RelateSpecDisjoint.lean", "GeoProofs/Lemmas/RelateSpecRewrite.lean",
+                   "GeoProofs/Lemmas/RelateSpecReverse.lean"],
     "rule": "ordered pairs (A, B) over all 10 geometry types (Geometry enum on both sides) drawn from one shared 3..6 grid: polyomino polygons with "
             "holes (incl. holes tangent to the shell), star polygons, rectangles with holes, corner-touching multipolygons, self-avoiding lattice "
             "paths, multi line strings sharing end points (mod-2 rule), half-grid points, same-dimension collections; each case also relates the "
@@ -22,8 +26,31 @@ MANIFEST = {
     "technique": "Lean 4 executable DE-9IM specification with proved matrix algebra + implementation-vs-specification correspondence on grid geometry pairs",
     "text": "relate() is compared, cell for cell, with an executable specification of DE-9IM written in Lean (exact point location with the mod-2 rule, "
             "arrangement atoms with symbolic infinitesimal face samples) that shares no code or algorithm with geo's topology-graph implementation; the same "
-            "run demands the transposed matrix for swapped operands and the same matrix for a second representation of the same point set. Proved so far: "
-            "matrix algebra (transpose involution, set_at_least/transposition commutation, symmetry of the disjoint-envelope shortcut). The adequacy of the "
+            "run demands the transposed matrix for swapped operands and the same matrix for a second representation of the same point set. Proved for all "
+            "inputs about the specification itself: (1) the matrix is the cell-wise maximum over the arrangement atoms, independent of their order and "
+            "repetition (fold_get, fold_perm, fold_subset_congr, relateParts_eq_fold) and transposed by exchanging the atom positions (fold_swap); "
+            "(2) transposition: relateSpec b a = (relateSpec a b)^T for all geometries (relateSpec_transpose / relateParts_transpose, via symmetry of the "
+            "intersection vertices, order-independence of the sorted vertices on a segment, and (1)); (3) point location is independent of how the point "
+            "set is written: segment direction (lineCoord_symm, onAnySeg_congr), ring direction and start vertex (windingE_reverse, windingE_rotate, "
+            "windingE_perm, ringEquiv_*, polyEquiv_*, insidePolyE_congr), hence locateParts / locateFace / locate under re-written rings and curves, "
+            "permuted members, holes and points (locateParts_congr, locateParts_perm, locateFace_congr, locateFace_perm, locate_polygon_congr, "
+            "locate_multiPolygon_member/_perm, locate_lineString_reverse/_rotate, locate_multiLineString_member/_perm, locate_multiPoint_perm), and "
+            "Rect/Triangle as Polygon, Line as LineString, singleton Multi*/collection as the member at the level of parts, hence for the whole matrix "
+            "(parts_*, locate_rect/_triangle/_line/_collection_single, relateSpec_congr); (4) boundary semantics: mod-2 rule for linear parts "
+            "(locateParts_linear_boundary/_inside/_outside), areal boundary = ring points not strictly inside a member (locateParts_areal_boundary, "
+            "_conv), points interior-only (locateParts_points_inside/_not_boundary); (5) disjoint-envelope lemma: a point, or perturbed face sample, "
+            "strictly outside the coordinate bounding box on any of the four sides is located outside (locate_outside_bbox, locateFace_outside_bbox; the "
+            "left side uses that a closed ring crosses a horizontal line upward as often as downward), and in matrix form: for operands whose "
+            "coordinate bounding boxes are strictly separated along an axis every arrangement atom is exterior to one operand, so II, IB, BI, BB are F — the "
+            "shape FF*FF**** that compute_disjoint emits (atom_outside_of_sep, relateParts_sep, computeDisjoint_shape); matrix algebra (transpose involution, "
+            "set_at_least/transposition commutation, symmetry of the disjoint-envelope shortcut). (6) the whole matrix, in either operand position, is invariant under re-writing an operand as the same point set: closed ring / "
+            "closed curve started at another vertex, ring / curve / line direction reversed, holes / members / points in another order (relateParts_same, "
+            "relateSpec_same_parts, partsSame_members, relateSpec_polygon_same/_ext_reverse/_hole_reverse/_ext_rotate/_hole_rotate/_holes_perm, "
+            "relateSpec_multiPolygon_member/_perm, relateSpec_lineString_reverse/_rotate, relateSpec_line_swap, relateSpec_multiLineString_member/_perm, "
+            "relateSpec_multiPoint_perm, relateSpec_collection_perm, locate_collection_perm, relateParts_congr; via: intersection vertices independent of segment directions and of the order / multiplicity of "
+            "the segments (segVertex_swap_left, segVertex_self, mem_pairVertices_iff), atoms of a segment independent of its direction "
+            "(mem_segAtoms_swap)). Not proved: "
+            "that the remaining cells (IE, BE, EI, EB) of separated operands equal the dimensions passed to compute_disjoint. The adequacy of the "
             "specification w.r.t. point-set topology is an explicit assumption (S1, S2), not a theorem.",
     "note": "Trusted: Lean kernel + audited axioms; the harness/generators (sampling); spec adequacy S1/S2. Defects found by this check and repaired in /repo: "
             "Triangle vertical edge (29720670), MultiPolygon shared vertex (5f41a6da), MultiLineString boundary_dimensions mod-2 (17c66966).",
